@@ -237,6 +237,22 @@ func (e *Env) Return(actor, id int, what string) (seq int) {
 	return
 }
 
+// ReturnSeq logs a return event without touching the pending table (for operations bracketed by the rig itself).
+func (e *Env) ReturnSeq(actor int, what string) (seq int) {
+	t := e.Now()
+	e.mu.Lock()
+	seq = len(e.events)
+	e.events = append(e.events, Event{Seq: seq, T: t, Kind: "return", Actor: actor, Msg: what})
+	for id, s := range e.pending {
+		if strings.HasPrefix(s, fmt.Sprintf("actor=%d %s ", actor, what)) {
+			delete(e.pending, id)
+			break
+		}
+	}
+	e.mu.Unlock()
+	return
+}
+
 // Pending lists API calls that have not returned.
 func (e *Env) Pending() []string {
 	e.mu.Lock()
